@@ -789,6 +789,10 @@ pub fn replay(cfg: Cfg, hist: &[Ev], mut l: Option<&mut Local>) -> Result<Sys, (
         let mut sys = Sys::new(cfg);
         for (n, ev) in hist.iter().enumerate() {
             let ll = if n + 1 == hist.len() { l.as_deref_mut() } else { None };
+            if !sys.enabled().contains(ev) {
+                // e.g. `send` while is_shutdown(): the caller contract forbids it (it panics by design)
+                return Err((n, Finding { key: NOT_ENABLED.into(), what: format!("event {} is not enabled at step {n}", ev.name()) }));
+            }
             match sys.apply(*ev, ll) {
                 Ok(()) => {}
                 Err(StepErr::Restart) => continue 'attempt,
@@ -799,6 +803,9 @@ pub fn replay(cfg: Cfg, hist: &[Ev], mut l: Option<&mut Local>) -> Result<Sys, (
     }
     Err((0, Finding { key: "stream-id-reuse-storm".into(), what: "16 consecutive runs drew an already used id".into() }))
 }
+
+/// Pseudo-key: the history cannot be executed on this tree (not an oracle verdict).
+pub const NOT_ENABLED: &str = "history-not-executable";
 
 pub fn configs(thorough: bool) -> (Vec<Cfg>, usize) {
     if thorough {
@@ -887,7 +894,7 @@ pub fn run(ctx: &Ctx) {
                 }
                 Err((step, f)) => {
                     let last = h.len() - 1;
-                    if step != last {
+                    if step != last || f.key == NOT_ENABLED {
                         ctx.machinery_failure(&format!("nondeterminism: history {} failed at prefix step {step}", case_json(&node.cfg, &h)));
                     } else {
                         report(ctx, l, node.cfg, &h, step, f);
